@@ -70,11 +70,14 @@ def main():
                 print(log[-3000:])
                 print('INFRA: lake build failed')
                 return 2
+        tie = C.source_tie(pid, mod)
+        if tie is not None:
+            ctx.extra = dict(getattr(ctx, 'extra', None) or {}, source_tie=tie['info'])
         if gen_broken:
             aud = dict(obligations=1, discharged=0, failures=['lake build of the regenerated tables failed: '
                        + gen_broken[0]], axioms={}, checker_cmd='cd lean && lake build', theorems=[])
         else:
-            aud = C.audit(pid, thorough=(a.tier == 'thorough'))
+            aud = C.audit(pid, thorough=(a.tier == 'thorough'), tie=tie)
         if a.replay:
             case = C.unjson_floats(json.load(open(a.replay)))
             mod.replay(ctx, case)
